@@ -215,11 +215,12 @@ def run(ctx):
     thorough = ctx.tier == "thorough"
     if thorough:
         sizes = [1, 10, 100, 1000, 1784, 65535]
-        ab_circle = [(x, 0) for x in sizes]
+        ab_circle = [(x, 0) for x in sizes] + [(100, 37), (100, 250), (1784, 1784), (1000, 65535), (65535, 1)]
         ab_other = [(x, y) for x in sizes for y in sizes]
         azs = AZIMUTHS
     else:
-        ab_circle = [(1, 0), (100, 0), (1784, 0), (65535, 0)]
+        # a circle's distance-b field is meaningless (0 from a conformant sender) and must not influence the verdict
+        ab_circle = [(1, 0), (100, 0), (1784, 0), (65535, 0), (100, 37), (100, 250), (1784, 1784), (1000, 65535)]
         ab_other = [(10, 10), (100, 10), (10, 100), (1000, 100), (100, 1000), (1784, 1784), (65535, 1), (1, 65535), (65535, 65535)]
         azs = AZIMUTHS
     jobs = []
